@@ -296,7 +296,8 @@ def gen(rng, shard, nshards, runs_per_suite, exhaustive_small):
                 continue
             if ntot > 600 and exhaustive_small <= 4 and name not in ("ed25519", "p256"):
                 ntot = 1000
-                ids = [min(i, 1000) for i in ids]
+                big = sorted(set(i for i in ids if i > 1000), reverse=True)
+                ids = [i if i <= 1000 else 1000 - big.index(i) for i in ids]
             tt = rng.choice([2, min(3, len(ids))]) if len(ids) > 2 else 2
             cases.append(protocol_run(rng, S, tt, ntot, None, big_idents=ids))
         # large-n split (documented limit 65535): only the split, with three shares checked
